@@ -1,6 +1,6 @@
 (* C07 — Decoders and parsers are total and resource-bounded on arbitrary input.  Theorems only;
-   proofs in theories/TotalProofs.v, CostProofs.v, SigParseProofs.v, SigParseMerged.v. *)
-From QV Require Import Reader Message Wire Value GenDec Cost CostProofs TotalProofs ParseOpt SigParse SigParseProofs SigParseMerged WireRefute WireTop.
+   proofs in theories/TotalProofs.v, CostProofs.v, SigParseProofs.v, SigParseMerged.v, DepthCostProofs.v. *)
+From QV Require Import Reader Message Wire Value GenDec Cost CostProofs TotalProofs ParseOpt SigParse SigParseProofs SigParseMerged WireRefute WireTop DepthCost DepthCostProofs.
 Local Open Scope N_scope.
 
 (* ---- totality on ARBITRARY bytes: a value or an error, never a panic, never stuck ---- *)
@@ -94,8 +94,89 @@ Theorem C07_parse_merged_total : forall s, parse_m s <> PFuel.
 Proof. exact parse_m_total. Qed.
 Print Assumptions C07_parse_merged_total.
 
+(* ---- the two resources Cost.v does not count, now inside the model (theories/DepthCost.v) ---- *)
+(* BYTES COPIED by the signature-driven reader.  sig_copy is sig_read with a meter: [copied] is the number
+   of bytes written into result buffers (every reader returns what it read, every composite reader
+   re-buffers what its members returned), [nesting] the deepest nesting of reader invocations reached. *)
+(* the meter does not change the reader: same value, rest or error, every input, every fuel *)
+Theorem C07_sig_copy_same : forall c fuel t bs, snd (sig_copy parse_opt c fuel t bs) = sig_read parse_opt c fuel t bs.
+Proof. intros c fuel t bs. apply sig_copy_read. Qed.
+Print Assumptions C07_sig_copy_same.
+(* TRUE upper bound, every type, every input, every outcome (errors included): a byte the reader consumed
+   is copied at most once per reader it is nested in; so copied <= nesting * |input|.  (Needs the repaired
+   stringReader: with the dropped error 4 input bytes make 4004 result bytes, drops_err_copy_unbounded.) *)
+Theorem C07_sig_copy_bound : forall c fuel t bs, string_reader_drops_err c = false ->
+  copied (fst (sig_copy parse_opt c fuel t bs)) <= nesting (fst (sig_copy parse_opt c fuel t bs)) * used bs (snd (sig_copy parse_opt c fuel t bs)) /\
+  copied (fst (sig_copy parse_opt c fuel t bs)) <= nesting (fst (sig_copy parse_opt c fuel t bs)) * len bs.
+Proof.
+  intros c fuel t bs H. split; [apply sig_copy_bound|apply sig_copy_bound_len]; exact H.
+Qed.
+Print Assumptions C07_sig_copy_bound.
+(* for a type that holds no dynamic value the nesting is the type's own (rdepth t, no input can raise it):
+   the reader is linear in the input for each such type, with the type's depth as the constant *)
+Theorem C07_sig_copy_static : forall c fuel t bs, string_reader_drops_err c = false -> plain_m t = true ->
+  nesting (fst (sig_copy parse_opt c fuel t bs)) <= rdepth t /\
+  copied (fst (sig_copy parse_opt c fuel t bs)) <= rdepth t * len bs.
+Proof.
+  intros c fuel t bs H Ht. split; [apply sig_copy_nest_static; exact Ht|apply sig_copy_static_linear; assumption].
+Qed.
+Print Assumptions C07_sig_copy_static.
+(* REFUTED: no bound linear in the input alone.  n dynamic values nested in one another (n times the
+   string "m", then "v": 5 (n + 1) bytes) are accepted and returned whole by the reader of type "m", which
+   copies 5 + 10 + ... + 5 (n + 1) = 5 (n + 1) (n + 2) / 2 bytes: finding sig_reader_depth_quadratic *)
+Theorem C07_refuted_sig_copy_linear : forall k : N, exists bs,
+  sig_read parse_opt wclean (S (List.length bs)) (TS SValue) bs = ROk (bs, []) /\
+  k * len bs < sig_copied wclean (TS SValue) bs.
+Proof. exact sig_copy_not_linear. Qed.
+Print Assumptions C07_refuted_sig_copy_linear.
+Theorem C07_sig_copy_nested_exact : forall n,
+  len (nested_m n) = 5 * (N.of_nat n + 1) /\
+  2 * sig_copied wclean (TS SValue) (nested_m n) = 5 * (N.of_nat n + 1) * (N.of_nat n + 2) /\
+  sig_nest wclean (TS SValue) (nested_m n) = N.of_nat n + 2.
+Proof.
+  intro n. destruct (sig_copied_nested n) as (_ & Hc & Hn). rewrite Hc, Hn.
+  split; [apply nested_m_blen|]. split; [apply copy_m_closed|reflexivity].
+Qed.
+Print Assumptions C07_sig_copy_nested_exact.
+
+(* RECURSION DEPTH of the signature parser.  The type rule of the model takes a fuel that is the number
+   of entries of the rule inside one another it still allows; parse_depth s is the least fuel with which
+   the rule answers on s (a node or a refusal, not "out of fuel"): the nesting of entries parsing s makes.
+   The Go parser uses more than 500 bytes of goroutine stack per entry; the runtime's limit is 1 GB. *)
+(* it is a threshold: any fuel from parse_depth s on gives the same answer, any fuel below gives none *)
+Theorem C07_parse_depth_threshold : forall s d,
+  (parse_within d s = true <-> (parse_depth s <= d)%nat) /\
+  ((parse_depth s <= d)%nat -> fst (decl_m d s) = fst (decl_m (parse_depth s) s)).
+Proof. intros s d. split; [apply parse_depth_spec|apply decl_m_stable]. Qed.
+Print Assumptions C07_parse_depth_threshold.
+(* TRUE bound: at most one entry per opening bracket of the text, and one more; hence at most |s| + 1 *)
+Theorem C07_parse_depth_bound : forall s,
+  (parse_depth s <= open_count s + 1)%nat /\ (parse_depth s <= String.length s + 1)%nat.
+Proof. intro s. split; [apply parse_depth_le_open_count|apply parse_depth_le_length]. Qed.
+Print Assumptions C07_parse_depth_bound.
+(* REFUTED: no constant bound.  n opening square brackets (refused), and the signature of n lists around
+   an int32 (accepted), need exactly n + 1 nested entries: finding sig_parse_stack_unbounded *)
+Theorem C07_refuted_parse_depth_constant : forall n,
+  parse_depth (brackets n) = (n + 1)%nat /\
+  parse_m (nested_list n) = POk (list_ty n) /\ parse_depth (nested_list n) = (n + 1)%nat.
+Proof.
+  intro n. split; [apply parse_depth_brackets_eq|]. split; [apply parse_m_nested_list|apply parse_depth_nested_list_eq].
+Qed.
+Print Assumptions C07_refuted_parse_depth_constant.
+
 Example C07_nonvacuous : wfz WireTop.ex_ty = true /\ plain_m ty_MetaObject = true.
 Proof. split; vm_compute; reflexivity. Qed.
 (* 22 nested parentheses (the witness the harness runs): 1166 invocations against at least 2^22 *)
 Example C07_nonvacuous_merged : parse_steps_m (nest 22) = 1166 /\ 2 ^ 22 <= parse_steps (nest 22).
 Proof. exact nest22_steps. Qed.
+(* 8000 nested dynamic values, the witness the harness runs: 40,005 bytes in, 160,060,005 bytes copied;
+   and 200 levels by evaluation of the model itself *)
+Example C07_nonvacuous_copy :
+  len (nested_m (N.to_nat 8000)) = 40005 /\ sig_copied wclean (TS SValue) (nested_m (N.to_nat 8000)) = 160060005.
+Proof. exact sig_copied_8000. Qed.
+Example C07_nonvacuous_copy_200 :
+  len (nested_m 200) = 1005 /\ sig_copied wclean (TS SValue) (nested_m 200) = 101505 /\ sig_nest wclean (TS SValue) (nested_m 200) = 202.
+Proof. exact sig_copied_200. Qed.
+(* the parser on "[[[i]]]": four entries of the type rule inside one another *)
+Example C07_nonvacuous_depth : parse_depth "[[[i]]]" = 4%nat /\ parse_depth (brackets 300) = 301%nat.
+Proof. split; vm_compute; reflexivity. Qed.
